@@ -45,6 +45,7 @@ Fixpoint item_ast (it : item) : ast :=
   | IName d => decl_ast d
   | IBlk bk k seg fa body => blk_ast bk k (seg_name seg) fa (map item_ast body)
   | ILeaf lk seg fa ta => leaf_ast lk (seg_name seg) fa ta
+  | IPkg seg k n elems => AName (seg_name seg) (APackage k n (map targ_ast elems))
   end.
 
 (** the right number of fixed arguments everywhere *)
@@ -53,6 +54,7 @@ Fixpoint shape_ok (it : item) : bool :=
   | IName _ => true
   | IBlk bk _ _ fa body => Nat.eqb (length fa) (length (bk_ws bk)) && forallb shape_ok body
   | ILeaf lk _ fa ta => Nat.eqb (length fa) (length (lk_ws lk)) && Nat.eqb (length ta) (lk_nt lk)
+  | IPkg _ _ _ _ => true
   end.
 
 Definition simple_name (nm : namestr) : option N :=
@@ -111,6 +113,7 @@ Fixpoint no_meth (it : item) : bool :=
   | IName _ => true
   | IBlk bk _ _ _ body => match bk with BMeth => false | _ => forallb no_meth body end
   | ILeaf _ _ _ _ => true
+  | IPkg _ _ _ _ => true
   end.
 
 Definition in_fragment_F1 (tables : list (list ast)) : bool :=
@@ -166,9 +169,12 @@ Proof.
 Qed.
 
 (** ---- encoding ---- *)
+Lemma encode_targs elems : flat_map encode (map targ_ast elems) = enc_ta elems.
+Proof. unfold enc_ta. induction elems as [|a r IH]; [reflexivity|]. cbn [map flat_map]. rewrite IH. destruct a; reflexivity. Qed.
+
 Lemma encode_item : forall it, shape_ok it = true -> encode (item_ast it) = enc_item it.
 Proof.
-  fix IH 1. intros [d|bk k seg fa body|lk seg fa ta] Hs.
+  fix IH 1. intros [d|bk k seg fa body|lk seg fa ta|seg k n elems] Hs.
   - apply encode_decl.
   - cbn [shape_ok] in Hs. apply andb_prop in Hs. destruct Hs as [Hl Hb]. apply Nat.eqb_eq in Hl.
     assert (HL : flat_map encode (map item_ast body) = enc_items body).
@@ -184,6 +190,7 @@ Proof.
       repeat match goal with c : targ |- _ => destruct c end;
       cbn [leaf_ast targ_ast cst_ast encode nth]; rewrite enc_seg_name; cbn [lfx lk_ws combine enc_fx fw_enc lk_op enc_ta enc_targ flat_map app]; unfold enc_const;
       rewrite ?app_nil_r, <- ?app_assoc; cbn [app]; rewrite <- ?app_assoc; reflexivity.
+  - cbn [item_ast encode]. unfold enc_pkg. rewrite enc_seg_name, encode_targs, enc_pkg_item. reflexivity.
 Qed.
 
 Lemma encode_items its : forallb shape_ok its = true -> encode_table (map item_ast its) = enc_items its.
@@ -208,7 +215,7 @@ Qed.
 
 Lemma wf_item e ms : forall it scope, shape_ok it = true -> wf_ast e ms scope (item_ast it) = true -> item_okb it = true.
 Proof.
-  fix IH 1. intros [d|bk k seg fa body|lk seg fa ta] scope Hs Hw.
+  fix IH 1. intros [d|bk k seg fa body|lk seg fa ta|seg k n elems] scope Hs Hw.
   - cbn [item_ast item_okb]. unfold decl_ast in Hw. cbn [wf_ast] in Hw.
     apply andb_prop in Hw. destruct Hw as [Hw _]. apply andb_prop in Hw. destruct Hw as [Hw Hc].
     apply andb_prop in Hw. destruct Hw as [Hn _].
@@ -251,6 +258,18 @@ Proof.
       try (match goal with Hv : (_ <? N.shiftl 1 _) = true |- _ => rewrite N.shiftl_1_l in Hv; exact Hv end);
       try (match goal with Hc : is_const_op (d_op ?c) && _ = true |- is_constb (d_op ?c) = true => apply andb_prop in Hc; exact (proj1 Hc) end);
       try (match goal with Hc : is_const_op (d_op ?c) && _ = true |- (d_v ?c <? _) = true => apply andb_prop in Hc; destruct Hc as [_ Hc]; rewrite N.shiftl_1_l in Hc; exact Hc end).
+  - cbn [item_ast wf_ast is_expr] in Hw. cbn [item_okb].
+    remember (name_ok (seg_name seg)) as NOK eqn:ENOK.
+    repeat (apply andb_prop in Hw; destruct Hw as [Hw ?]); subst NOK.
+    destruct (seg_ok_parts seg Hw) as (Hlead & Hseg). rewrite Hlead, Hseg. cbn [andb].
+    match goal with H0 : (n <? 256) && _ && _ = true |- _ => apply andb_prop in H0; destruct H0 as [H0 Hkk]; apply andb_prop in H0; destruct H0 as [Hn Hall] end.
+    rewrite sumlen_eq, encode_targs in Hkk.
+    repeat (apply andb_true_intro; split); try assumption.
+    + eapply pkglen_of_k; [exact Hkk|]. rewrite lenN_app. reflexivity.
+    + match goal with Ha : _ (map targ_ast elems) = true |- _ => revert Ha end. clear. induction elems as [|a r IHr]; intros Ha; [reflexivity|].
+      cbn [map] in Ha. cbn in Ha. apply andb_prop in Ha. destruct Ha as [Ha Hr]. apply andb_prop in Ha. destruct Ha as [_ Ha].
+      cbn [forallb]. rewrite (IHr Hr), andb_true_r. destruct a as [d|b]; cbn [targ_ast cst_ast wf_ast targ_okb] in *; [|exact Ha].
+      unfold cst_okb. apply andb_prop in Ha. destruct Ha as [Hc Hv]. rewrite N.shiftl_1_l in Hv. rewrite Hv, andb_true_r. exact Hc.
 Qed.
 
 Lemma wf_items e ms its : forallb shape_ok its = true -> forallb (wf_ast e ms []) (map item_ast its) = true -> forallb item_okb its = true.
@@ -262,11 +281,11 @@ Qed.
 
 (** ---- the specification side ---- *)
 Lemma item_is_decl it : is_decl (item_ast it) = true.
-Proof. destruct it as [d|bk k seg fa body|lk seg fa ta]; [reflexivity|destruct bk; reflexivity|destruct lk; reflexivity]. Qed.
+Proof. destruct it as [d|bk k seg fa body|lk seg fa ta|seg k n elems]; [reflexivity|destruct bk; reflexivity|destruct lk; reflexivity|reflexivity]. Qed.
 
 Lemma entries_item e : forall it scope, shape_ok it = true -> entries e scope (item_ast it) = sentry scope it.
 Proof.
-  fix IH 1. intros [d|bk k seg fa body|lk seg fa ta] scope Hs.
+  fix IH 1. intros [d|bk k seg fa body|lk seg fa ta|seg k n elems] scope Hs.
   - cbn [item_ast sentry]. unfold decl_ast, name_entry. cbn [entries]. unfold decl_path, start_scope. cbn [n_root n_carets n_segs].
     destruct (lenN scope <? 0) eqn:E0; [apply N.ltb_lt in E0; lia|]. change (N.to_nat 0) with 0%nat. rewrite Nat.sub_0_r, firstn_all.
     cbn [r_expr]. unfold const_tokens, const_val, tok_const. destruct (const_bytes (d_op d)); reflexivity.
@@ -299,6 +318,13 @@ Proof.
     destruct lk; cbn [lk_ws lk_nt length] in Hl, Ht; (destruct fa as [|a0 [|a1 fa]]; try discriminate Hl); (destruct ta as [|c0 [|c1 [|c2 ta]]]; try discriminate Ht);
       cbn [leaf_ast entries nth]; rewrite Hdp; rewrite ?Hcst; unfold leaf_entry; cbn [lfx lk_ws combine flat_map fw_op lk_op app];
       rewrite ?app_nil_r, <- ?app_assoc; reflexivity.
+  - assert (Hdp : decl_path scope (seg_name seg) = Some (scope ++ [seg])).
+    { unfold decl_path, start_scope. cbn [seg_name n_root n_carets n_segs]. destruct (lenN scope <? 0) eqn:E0; [apply N.ltb_lt in E0; lia|].
+      change (N.to_nat 0) with 0%nat. rewrite Nat.sub_0_r, firstn_all. reflexivity. }
+    assert (Hcst : flat_map (r_expr e scope) (map targ_ast elems) = flat_map targ_tokens elems).
+    { clear. induction elems as [|a r IHr]; [reflexivity|]. cbn [map flat_map]. rewrite IHr. f_equal.
+      destruct a as [d|b]; [|reflexivity]. unfold targ_ast, targ_tokens, cst_ast, cst_tokens. cbn [r_expr]. unfold const_tokens, const_val, tok_const. destruct (const_bytes (d_op d)); reflexivity. }
+    cbn [item_ast sentry entries]. rewrite Hdp. cbn [r_expr]. rewrite Hcst. unfold pkg_entry, lenN. rewrite map_length. reflexivity.
 Qed.
 
 Lemma entries_items e its : forallb shape_ok its = true -> flat_map (entries e []) (map item_ast its) = sentries [] its.
